@@ -227,8 +227,12 @@ def quiescence_check(run: Any, prop: str, spec: dict | None = None) -> list[dict
             out.append(viol(f"{prop}/terminal-stage-workflow-succeeded", f"stages {term} TERMINAL, workflow {wf}"))
         elif wf == "CANCELED" and not st.get("canceled"):
             out.append(viol(f"{prop}/terminal-stage-workflow-not-failed", f"stages {term} TERMINAL, workflow {wf}"))
-    if run.dlq:
+    if run.dlq and wf not in COMPLETE:
         out.append(viol(f"{prop}/message-in-dlq", f"{[(d['type'], d['error']) for d in run.dlq][:3]}"))
+    elif run.dlq:
+        # a handler that kept raising until its message was dead-lettered, in a workflow that nevertheless is
+        # final with nothing running: noise for an operator, but none of the statement's predicates is violated
+        run.dlq_after_final = True
     if run.in_txn:
         out.append(viol(f"{prop}/open-transaction-at-quiescence", "worker connection still in a transaction"))
     return out
